@@ -146,9 +146,10 @@ class Gen:
 
     def resize_op(self, t, prefix):
         r = self.rng
-        if getattr(self, 'use_workers', False):
+        if getattr(self, 'use_workers', False) and not getattr(self, 'workers_rebuild', False):
             # with helper threads a rebuild places elements in a nondeterministic order; worker scripts
-            # keep to doubling + migration (whose result does not depend on the order)
+            # keep to doubling + migration (whose result does not depend on the order); the profile
+            # 'workers_rebuild' does rebuild and is checked by the acceptor only (judge-only)
             self.emit(t, '%s %d' % ('l.find' if prefix else 'find', self.k()) + (' 0' if prefix else ''))
             return
         if r.random() < 0.5:
@@ -234,7 +235,7 @@ class Gen:
         r = self.rng
         c = self.cfg
         keys = make_keys(r, self.nkeys + 3, self.style)
-        hdr = ['# profile=%s style=%s nkeys=%d' % (self.profile, self.style, self.nkeys),
+        hdr = (['# judge-only'] if getattr(self, 'workers_rebuild', False) else []) + ['# profile=%s style=%s nkeys=%d' % (self.profile, self.style, self.nkeys),
                'cfg %d %d %d %d %d' % (c['spb'], c['lbits'], c['simple'], c['nothrow'], c['destructive'])]
         for k, h in keys.items():
             hdr.append('key %d %d' % (k, h))
@@ -526,6 +527,12 @@ def gen_script(seed, cfg, **kw):
         # helper threads only with trivially copyable nothrow element types (the instrumented registry is
         # single-threaded, and non-nothrow types grow by rebuild)
         g.use_workers = (cfg['simple'] == 1)
+        return g.generate()
+    if prof == 'workers_rebuild':
+        kw = dict(kw); kw.pop('profile')
+        g = Gen(rng, cfg, profile=rng.choice(['resize', 'locked', 'mixed', 'resize']), **kw)
+        g.use_workers = (cfg['simple'] == 1)
+        g.workers_rebuild = g.use_workers
         return g.generate()
     if prof in ('special', 'stream'):
         kw = dict(kw); kw.pop('profile')
